@@ -357,3 +357,12 @@ def _denom_text(x):
     if isinstance(x, str):
         return x
     raise Unsupported('symbolic subdenom %r' % (x,))
+
+
+def _abs_tf_fee(I, args):
+    """token-factory params query: the denom creation fee coins configured on the chain"""
+    fees = I.world.meta.get('tf_fees', [])
+    return Ok(Vc([clone(c) for c in fees]))
+
+
+DEFAULT_ABSTRACTIONS['mantra-dex-std::get_factory_denom_creation_fee'] = _abs_tf_fee
